@@ -77,6 +77,27 @@ def locator_obs(loc):
     return ("index", tuple(int(x) for x in loc.indices))
 
 
+def coords_obs(o):
+    """where the object is, through the public locator API (independent of how the grid stores its arguments)"""
+    from armi.reactor import grids
+
+    loc = o.spatialLocator
+    try:
+        if loc is None:
+            return None
+        if isinstance(loc, grids.MultiIndexLocation):
+            return tuple(tuple(round(float(x), 9) for x in l.getLocalCoordinates()) for l in loc) if loc.grid is not None else ("detached",)
+        if isinstance(loc, grids.CoordinateLocation):
+            # a free coordinate is observed in its own frame: the database does not record whether the locator was
+            # attached to the parent's grid (blueprint-built components are not, auto pin grids attach theirs)
+            return ("local",) + tuple(float(x) for x in loc.getLocalCoordinates())
+        if getattr(loc, "grid", None) is None:
+            return ("detached",)
+        return tuple(float(x) for x in loc.getGlobalCoordinates())
+    except Exception as e:
+        return ("raises", type(e).__name__)
+
+
 def grid_obs(g):
     if g is None:
         return None
@@ -121,6 +142,10 @@ def node_obs(o, derived=True):
 
     rec = {"cls": type(o).__name__, "name": o.name, "serial": int(o.p.serialNum), "nchild": len(o),
            "loc": locator_obs(o.spatialLocator), "grid": grid_obs(getattr(o, "spatialGrid", None)), "params": params_obs(o)}
+    rec["xyz"] = coords_obs(o)
+    g_ = getattr(o, "spatialGrid", None)
+    if g_ is not None:
+        rec["gridoffset"] = tuple(float(x) for x in g_.offset)
     if isinstance(o, Component):
         rec["material"] = type(o.material).__name__
         rec["Tin"], rec["T"] = float(o.inputTemperatureInC), float(o.temperatureInC)
@@ -178,6 +203,17 @@ def diff(a, b, rel=REL, limit=20, ignore_params=()):
             for k in sorted(set(dx) | set(dy)):
                 if dx.get(k) != dy.get(k):
                     out.append(("dimension/%s/%s" % (x["cls"], k), "%s: dimension %s differs: %r vs %r" % (where, k, dx.get(k), dy.get(k))))
+        for f in ("xyz", "gridoffset"):
+            if f in x or f in y:
+                u, v = x.get(f), y.get(f)
+                ok = u == v
+                if not ok and isinstance(u, tuple) and isinstance(v, tuple) and len(u) == len(v) and u[:1] == v[:1] == ("local",):
+                    u, v = u[1:], v[1:]
+                if not ok and isinstance(u, tuple) and isinstance(v, tuple) and len(u) == len(v) and all(isinstance(q, float) for q in u + v):
+                    sc = max([abs(q) for q in u + v] + [1.0])
+                    ok = all(abs(p_ - q) <= 1e-9 * sc for p_, q in zip(u, v))
+                if not ok:
+                    out.append(("%s/%s" % (f, x["cls"]), "%s: %s differs: %r vs %r" % (where, f, _s(u), _s(v))))
         for f in ("volume", "mass"):
             if f in x and f in y:
                 u, v = x[f], y[f]
